@@ -139,3 +139,12 @@ package transport
 //@   maypanic
 //@   modifies alloc()
 //@   ensures fresh(result)
+
+// ---- C14: the standard transport's host-key callback, user and timeout --------------------------------------------------
+//@ func (*Standard).openSession
+//@   noverify
+//@ func (*Standard).openBase [C14]
+//@   ensures #strict-without-known-hosts-file-is-a-bad-option t.SSHArgs.StrictKey && t.SSHArgs.KnownHostsFile == "" ==> isErr(result, util.ErrBadOption)
+//@   at call openSession#1 assert #strict-checks-against-the-known-hosts-file t.SSHArgs.StrictKey ==> t.SSHArgs.KnownHostsFile != "" && arg1.HostKeyCallback == knownHostsCB(strs(t.SSHArgs.KnownHostsFile))
+//@   at call openSession#1 assert #checking-skipped-only-when-disabled !t.SSHArgs.StrictKey ==> arg1.HostKeyCallback == insecureCB()
+//@   at call openSession#1 assert #configured-user-and-timeout arg1.User == a.User && arg1.Timeout == a.TimeoutSocket
